@@ -547,11 +547,13 @@ int generate_conditional_branch (parse_node_t * node) {
   /* only have to handle while (x != 0) since while (x == 0) will be
    * handled by the x == 0 -> !x and !x optimizations.
    */
+  /* not when x may be a float: 0.0 != 0 is false but 0.0 counts as true */
+#define MAY_BE_REAL(t) ((t) == TYPE_REAL || (t) == TYPE_ANY || (t) == TYPE_UNKNOWN)
   if (IS_NODE (node, NODE_BINARY_OP, F_NE))
     {
-      if (IS_NODE (node->r.expr, NODE_NUMBER, 0))
+      if (IS_NODE (node->r.expr, NODE_NUMBER, 0) && !MAY_BE_REAL (node->l.expr->type))
         node = node->l.expr;
-      else if (IS_NODE (node->l.expr, NODE_NUMBER, 0))
+      else if (IS_NODE (node->l.expr, NODE_NUMBER, 0) && !MAY_BE_REAL (node->r.expr->type))
         node = node->r.expr;
     }
   if (IS_NODE (node, NODE_UNARY_OP, F_NOT))
